@@ -318,13 +318,26 @@ specialise(
     "C20",
     "c.misspellings",
     c20_misspell,
-    {"n": [1, 2, 3, 4]},
+    {"n": [1, 2, 3]},
     timeout=600,
     kernel=(K[6], K[7]),
     shims=(),
     symbolic="candidate sheet name of n symbolic letters with symbolic letter case on the first three, underscore prefix (boolean)",
-    bounds="key 'osm' (distance threshold reachable within 4 characters); recursive reference edit distance",
+    bounds="key 'osm' (distance threshold reachable within 4 characters); recursive reference edit distance; n <= 3 quick, n = 4 thorough",
     weight=100,
+)
+specialise(
+    "C20",
+    "c.misspellings",
+    c20_misspell,
+    {"n": [4]},
+    tiers=("thorough",),
+    timeout=3000,
+    kernel=(K[6], K[7]),
+    shims=(),
+    symbolic="candidate sheet name of 4 symbolic letters with symbolic letter case on the first three, underscore prefix (boolean)",
+    bounds="key 'osm'; n = 4",
+    weight=1500,
 )
 
 
